@@ -516,6 +516,12 @@ func Exec(args []string, env *Env) int {
 			path = path + ".wrong"
 		}
 		full := env.abs(path)
+		if opts["linkout"] != "" && !w.stream && !w.dir && len(c.Ins) > 0 {
+			// the tool leaves a relative symbolic link to its input as its output ("ln -s {i:in} {o:out}")
+			os.Symlink(c.Ins[0].V, full)
+			outs[w.port] = "link:" + c.Ins[0].V
+			continue
+		}
 		if w.dir {
 			// a directory output holds several files: two parts (written first, sorting before "data") and "data"
 			os.MkdirAll(full, 0777)
